@@ -77,7 +77,7 @@ structure Inv (s : St) : Prop where
 theorem Inv.prod_lt {s : St} (h : Inv s) : s.prod < N := by
   rw [h.prod_eq]; exact Nat.mod_lt _ N_pos
 
-theorem init_inv (script : List SendRes) : Inv (St.init script) := by
+theorem init_inv (script : List SendRes) (console : Bool := false) : Inv (St.init script console) := by
   refine ⟨?_, ?_, ?_, ?_, ?_⟩ <;> simp [St.init, N_pos]
 
 /-- the chunk handed to send(): non-empty, inside the buffer, not longer than what is pending -/
